@@ -80,8 +80,8 @@ def main():
         out["author_meta"] = json.load(open(meta))
     except Exception as e:  # noqa
         out["author_meta"] = {"error": str(e)}
-    out["needs"] = out["author_meta"].get("needs")
-    out["what"] = out["author_meta"].get("what")
+    out["needs"] = out["author_meta"].get("needs") or out["author_meta"].get("needs_to_manifest")
+    out["what"] = out["author_meta"].get("what") or out["author_meta"].get("what_changes")
     dst = f"/verif/seeded/{pid}-{tag}{x}"
     if ok:
         os.makedirs(dst, exist_ok=True)
